@@ -27,7 +27,7 @@ def qpath(q):
 def decl_order(q):
     """declaration order of the unit attributes in /repo (only used to order ties)"""
     if q.crate == "crate":          # synthetic definition: the spec lists the units in declaration order
-        return [u.ident for u in q.units]
+        return getattr(q, "decl", None) or [u.ident for u in q.units]
     if q.crate == "quantities":
         f = os.path.join(common.REPO, "src", q.module + ".rs")
     else:
